@@ -5,24 +5,36 @@
      CorridorSequence                         [VL [call; ...]], call = VL of the six arguments above          obs: VL [result; ...]
      FitClearanceAroundExtendedSpatialID      [VS id; VF clearance]                                          obs: VL [VZ H; VZ V] | VE _
      FitSequence                              [VL [VL [VS id; VF clearance]; ...]]                           obs: VL [result; ...]
-     FitLoop                                  [VS id; VF clearance]  (the same call, judged against the replayed loops)  obs: as above
-   The harness answers VS "out-of-domain" without calling the implementation when the arguments are outside the property's bounded
-   quantifier (radius above 3 cell widths, horizontal zoom below 2 with a positive radius, ...: the fit does not terminate there, D16).
+     FitLoop                                  [VS id; VF clearance]   (same judgement as FitClearance...; kept as a separate stream)
+   Bounded quantifier. The harness answers VS "out-of-domain" WITHOUT calling the implementation when the arguments are outside the
+   property's bounded quantifier (D16: the fit does not terminate when no shift reaches the clearance; sizes). Such an answer is never a
+   pass: the entry re-derives the reason from the arguments (size estimates through the oracle "dom"/"fitdom", which only supplies the
+   cosines/row numbers) and answers class "skipped" when a cap is really exceeded, and bad_case otherwise. Caps: line span > 120 cells
+   on an axis; positive radius with hZoom < 2, radius = +Inf, radius > 3 cell widths (hZoom >= 6) or > 0.5 pole-ward edge widths
+   (hZoom 2..5); (line cells) x (stencil) > 250000. Coordinates outside lon +-180 / lat +-85.0511287798 / |alt| <= 2^25, NaN or Inf, are
+   bad_case (the altitude bound keeps the vertical index far from the int64 limits, where Go's `altIndex + v` wraps and the model's Z
+   does not). For the fit: well-formed IDs with a zoom field outside 0..35 AND a negative or huge index (GetShiftingSpatialID runs before
+   the vertex check and its wrap loop spins for a negative zoom: FitClearanceAroundExtendedSpatialID("-5/-2/0/0/0", 0) never returns),
+   or with x, y outside the grid of a valid zoom, are outside the quantifier of C14/C15 ("skipped").
    Oracles (answered by the real Go code, never by a second implementation of the library):
      "line"  [p1; p2; VZ h; VZ v]          shape.GetExtendedSpatialIdsOnLine on the same arguments            -> ID list | VE _
      "fit"   [VS id; VF radius]            transform.FitClearanceAroundExtendedSpatialID                      -> VL [VZ H; VZ V] | VE _
-     "vdist" [VS id; VS probed]            the distance the fit measures between a voxel and a probed voxel (FitLoop only) -> VF d
+     "vdist" [VS id; VS probed]            the distance the fit measures between a voxel and a probed voxel   -> VF d
+     "gjk"   [p1; p2; VL ids]              closest_go's distance between the segment and each voxel, measured with a FRESH closest.Measure
+                                           per voxel (the same library calls as the corridor's loop, without its reused state)  -> VL [VF d; ...]
    Independent reference (validation, harness/props/c14/geom.go):
      "hdist" [p1; p2; VF radius; VL ids]   for each ID a lower and an upper bound of the chord distance between the segment and the
                                            voxel's footprint                                                  -> VL [VL [VF lo; VF hi]; ...]
    corr: skip mode: same error flag, same ID set and the same number of IDs as Corridor.corridor_exec fed with the oracle answers;
-         measured mode: the same with the filter read off the observed set (L ⊆ obs ⊆ skip-mode model), and no candidate that the
-         reference puts clearly inside the radius (hi < radius) is missing.
-   class: gjk_axis_parallel_segment (see axis_parallel below) when the only failed check is the distance reference and the segment runs
-         along a parallel or a meridian.
+         measured mode: the filter is READ OFF THE OBSERVED SET (the measuring loop's state is not replayed): L ⊆ obs ⊆ skip-mode model,
+         and (hZoom >= 6) no candidate that the reference puts clearly inside the radius (hi < radius) is missing.
    prop: Corridor.check_corridor on the observed set (NoDup, zooms, L ⊆ obs, radius 0 ⇒ obs ≡ L, every added ID in the reported box of a
-         line voxel), and in measured mode no added ID that the reference puts clearly outside the radius (lo > radius);
-         pair: measured ⊆ skipped; sequences: equal arguments ⇒ equal results; negative radius / bad zoom / nil point ⇒ error. *)
+         line voxel), and in measured mode at hZoom >= 6 no added ID that the reference puts clearly outside the radius (lo > radius)
+         [hZoom 2..5: the distance clause is NOT COVERED — a cell spans a large part of the globe, the planar hull of its corners is far
+         below its footprint and closest_go returns 0 for such cells];
+         pair: measured ⊆ skipped; sequences: equal arguments ⇒ equal results (both modes; since 915e48e the measured result is a function of
+         the arguments); negative radius / bad zoom / nil point ⇒ error.
+   classes gjk_axis_parallel_segment / measure_reuse_axis_parallel_segment: see below. *)
 From Coq Require Import ZArith String List Bool Floats.
 From SID Require Import Base Str Ids Wire F64 Shift Neighbour Corridor.
 Import ListNotations.
@@ -46,8 +58,14 @@ Definition res_of_fit (obs : val) : option (result (Z * Z)) :=
   end.
 Definition fit_val (r : result (Z * Z)) : val := match r with Ok (H, V) => VL [VZ H; VZ V] | Err => VE VNil end.
 
-Definition point_ok (v : val) : bool := match v with VNil => true | VL [VF _; VF _; VF _] => true | _ => false end.
 Definition is_nil (v : val) : bool := match v with VNil => true | _ => false end.
+(* a stored point inside the documented ranges (finite, |lon| <= 180, |lat| <= 85.0511287798, |alt| <= 2^25), or a nil pointer *)
+Definition point_ok (v : val) : bool :=
+  match v with
+  | VNil => true
+  | VL [VF lon; VF lat; VF alt] => ((abs lon <=? 180) && (abs lat <=? c_latmax) && (abs alt <=? 33554432))%float
+  | _ => false
+  end.
 
 (* equality of argument values (floats by bit pattern) *)
 Fixpoint val_eqb (a b : val) : bool :=
@@ -91,35 +109,73 @@ Definition ask_hdist (oracle : oracle_t) (p1 p2 : val) (radius : float) (ids : l
       | _ => None
       end
   end.
+(* closest_go with a fresh Measure per voxel *)
+Definition ask_gjk (oracle : oracle_t) (p1 p2 : val) (ids : list string) : option (list float) :=
+  match ids with
+  | [] => Some []
+  | _ =>
+      match oracle "gjk" [p1; p2; of_LS ids] with
+      | VL l => match all_opt (map as_F l) with
+                | Some r => if Nat.eqb (List.length r) (List.length ids) then Some r else None
+                | None => None
+                end
+      | _ => None
+      end
+  end.
 
-(* j_ok = false: the case cannot be judged;  j_cls: finding class of a failed property check ("-" = none) *)
-Record judged := { j_corr : bool; j_prop : bool; j_model : val; j_ok : bool; j_cls : string }.
-Definition jbad : judged := {| j_corr := false; j_prop := false; j_model := VNil; j_ok := false; j_cls := "-" |}.
-Definition jv c p m : judged := {| j_corr := c; j_prop := p; j_model := m; j_ok := true; j_cls := "-" |}.
-Definition jvc c p m cls : judged := {| j_corr := c; j_prop := p; j_model := m; j_ok := true; j_cls := cls |}.
+(* j_ok = false: the case cannot be judged;  j_skip: refused by the size guard and the refusal is confirmed;
+   j_cls: finding class of a failed property check ("-" = none) *)
+Record judged := { j_corr : bool; j_prop : bool; j_model : val; j_ok : bool; j_skip : bool; j_cls : string }.
+Definition jbad : judged := {| j_corr := false; j_prop := false; j_model := VNil; j_ok := false; j_skip := false; j_cls := "-" |}.
+Definition jskip : judged := {| j_corr := true; j_prop := true; j_model := VNil; j_ok := true; j_skip := true; j_cls := "-" |}.
+Definition jvc c p m cls : judged := {| j_corr := c; j_prop := p; j_model := m; j_ok := true; j_skip := false; j_cls := cls |}.
+Definition jv c p m : judged := jvc c p m "-".
 
-(* Finding class gjk_axis_parallel_segment (third-party closest_go): for a segment that runs (almost) exactly along a parallel or a
-   meridian — the latitude difference of the stored end points is at most 2^-9 of the longitude difference, or conversely, in degrees;
-   identical end points included — the GJK distance between the segment and a voxel's hull is under-estimated in about 0.1 % of the
-   segment/voxel pairs (by up to 2.5 cell widths; observed only for directions within 1e-6 of the axis, never otherwise and never an
-   over-estimate), so the measured result keeps voxels farther than the radius. A decidable predicate on the arguments: *)
+(* Finding class gjk_axis_parallel_segment (third-party closest_go). For a segment that runs exactly along a parallel or a meridian
+   closest_go's GJK distance between the segment and a voxel's hull is UNDER-estimated in about 0.1 % of the segment/voxel pairs (by up to
+   2.5 cell widths; also with a fresh closest.Measure per voxel; observed only for directions within 1e-6 of the axis; never an
+   over-estimate), so measured mode keeps voxels farther than the radius. The class is reported only when ALL of this holds:
+     - the distance reference is the only failed check and the correspondence holds;
+     - the stored end points differ, and their latitude difference is at most 2^-16 of their longitude difference or conversely (degrees);
+     - for EVERY kept voxel that the reference puts clearly outside the radius, closest_go itself, asked with a fresh Measure through
+       the oracle "gjk", reports a distance below the radius (so the library really under-estimates there; a far voxel kept although the
+       fresh GJK distance is not below the radius is a failure outside the class). *)
 Definition axis_parallel (p1 p2 : val) : bool :=
   match p1, p2 with
   | VL [VF lon1; VF lat1; _], VL [VF lon2; VF lat2; _] =>
       let dlon := abs (lon1 - lon2)%float in
       let dlat := abs (lat1 - lat2)%float in
-      ((dlat <=? 0x1p-9 * dlon) || (dlon <=? 0x1p-9 * dlat))%float
+      (((0 <? dlon) && (dlat <=? 0x1p-16 * dlon)) || ((0 <? dlat) && (dlon <=? 0x1p-16 * dlat)))%float
   | _, _ => false
   end.
 Definition cls_gjk : string := "gjk_axis_parallel_segment".
+(* Finding class measure_reuse_axis_parallel_segment (this library's measuring loop): same conditions, but for at least one kept voxel
+   clearly outside the radius closest_go asked with a FRESH Measure reports a distance that is NOT below the radius — the voxel is kept
+   only because the loop reuses one closest.Measure, whose search starts from the previous candidate's state and then stops too early
+   (typically one of the 2V+1 altitude layers of a footprint is kept and its siblings are dropped). To keep the class from excusing a
+   systematically wrong filter it is reported only when such voxels are at most one eighth of the added IDs. *)
+Definition cls_reuse : string := "measure_reuse_axis_parallel_segment".
 
-(* the reference is applied at horizontal zooms 6..35 (below, a cell spans a large part of the globe and the planar hull of its corners is
-   far below its footprint) and for an ordinary radius *)
+(* the independent distance reference is applied at horizontal zooms 6..35 and for an ordinary radius *)
 Definition dist_applies (h : Z) (radius : float) : bool := (6 <=? h)%Z && (0 <? radius)%float && (radius <? infinity)%float.
 
+(* is the refusal of a corridor call justified by a cap? estimates: [span in cells on the longest axis; radius in limiting cell widths;
+   (line cells) x (stencil)] *)
+Definition corridor_cap_exceeded (oracle : oracle_t) (p1 p2 : val) (h v : Z) (radius : float) : bool :=
+  if is_nil p1 || is_nil p2 || negb (check_zoom h && check_zoom v) then false
+  else
+    match oracle "dom" [p1; p2; VZ h; VZ v; VF radius] with
+    | VL [VF span; VF rcells; VF shifts] =>
+        ((120 <? span)%float ||
+         ((0 <? radius)%float &&
+          ((radius =? infinity)%float || (h <? 2)%Z || (if (h <? 6)%Z then (0.5 <? rcells)%float else (3 <? rcells)%float) ||
+           (250000 <? shifts)%float)))
+    | _ => false
+    end.
+
 Definition judge (oracle : oracle_t) (p1 p2 : val) (h v : Z) (radius : float) (skip : bool) (obs : val) : judged :=
-  if is_ood obs then jv true true VNil
-  else if negb (point_ok p1 && point_ok p2) then jbad
+  if negb (point_ok p1 && point_ok p2) then jbad
+  else if is_ood obs then (if corridor_cap_exceeded oracle p1 p2 h v radius then jskip else jbad)
   else
     match res_of_ids obs with
     | None => jbad
@@ -155,31 +211,48 @@ Definition judge (oracle : oracle_t) (p1 p2 : val) (h v : Z) (radius : float) (s
                             let missing := filter (fun x => negb (SS.mem x oset)) msl in
                             match ask_hdist oracle p1 p2 radius added, ask_hdist oracle p1 p2 radius missing with
                             | Some ba, Some bm =>
-                                let far_ok := forallb (fun b => negb (radius <? fst b)%float) ba in       (* no kept voxel clearly outside *)
+                                let far := map fst (filter (fun ib => (radius <? fst (snd ib))%float) (combine added ba)) in  (* kept, clearly outside *)
+                                let far_ok := match far with [] => true | _ => false end in
                                 let near_ok := forallb (fun b => negb (snd b <? radius)%float) bm in      (* no dropped voxel clearly inside *)
                                 let corr := same_ids ml ol && near_ok in
-                                let cls := if corr && structural && negb far_ok && axis_parallel p1 p2 then cls_gjk else "-" in
-                                jvc corr (structural && far_ok) (ids_val m) cls
+                                if far_ok || negb (corr && structural && axis_parallel p1 p2) then jv corr (structural && far_ok) (ids_val m)
+                                else
+                                  match ask_gjk oracle p1 p2 far with
+                                  | Some ds =>
+                                      let stateful := List.length (filter (fun d => negb (d <? radius)%float) ds) in
+                                      jvc corr false (ids_val m)
+                                          (if Nat.eqb stateful 0 then cls_gjk
+                                           else if Nat.leb (8 * stateful) (List.length added) then cls_reuse else "-")
+                                  | None => jbad
+                                  end
                             | _, _ => jbad
                             end
-                      | _, _, _, _ => jv false true (ids_val m)   (* the implementation succeeded where the oracles / model did not *)
+                      | _, _, _, _ => jv false false (ids_val m)   (* the implementation succeeded where the line / fit call or the model fails:
+                                                                      contradicts C14_line_error / C14_fit_error *)
                       end
                 end
             end
         end
     end.
 
-Definition verdict_of (j : judged) : verdict := if j_ok j then mkv (j_corr j) (j_prop j) (j_cls j) (j_model j) else bad_case.
-(* several judged calls in one case: a failed check outside every finding class (or a failed relation between the calls) decides;
-   otherwise the class of the failed check is reported, and only when the correspondence holds *)
+Definition verdict_of (j : judged) : verdict :=
+  if negb (j_ok j) then bad_case
+  else if j_skip j then mkv true true "skipped" VNil
+  else mkv (j_corr j) (j_prop j) (j_cls j) (j_model j).
+(* several judged calls in one case: any call that cannot be judged makes the case a bad case; a confirmed refusal of one call makes the
+   case "skipped"; a failed check outside every finding class (or a failed relation between the calls) decides; otherwise the class of
+   the failed check is reported, and only when the correspondence holds *)
 Definition hard_fail (j : judged) : bool := negb (j_prop j) && String.eqb (j_cls j) "-".
 Definition soft_class (js : list judged) : string :=
   match filter (fun j => negb (j_prop j)) js with j :: _ => j_cls j | [] => "-" end.
 Definition combine_verdict (js : list judged) (extra : bool) (model : val) : verdict :=
-  let corr := forallb j_corr js in
-  let prop := forallb j_prop js && extra in
-  let cls := if corr && extra && negb (existsb hard_fail js) then soft_class js else "-" in
-  mkv corr prop cls model.
+  if negb (forallb j_ok js) then bad_case
+  else if existsb j_skip js then mkv true true "skipped" VNil
+  else
+    let corr := forallb j_corr js in
+    let prop := forallb j_prop js && extra in
+    let cls := if corr && extra && negb (existsb hard_fail js) then soft_class js else "-" in
+    mkv corr prop cls model.
 
 Definition d_corridor (oracle : oracle_t) (args : list val) (obs : val) : verdict :=
   match args with
@@ -193,23 +266,16 @@ Definition d_pair (oracle : oracle_t) (args : list val) (obs : val) : verdict :=
   | [p1; p2; VZ h; VZ v; VF r], VL [om; os] =>
       let jm := judge oracle p1 p2 h v r false om in
       let js := judge oracle p1 p2 h v r true os in
-      if negb (j_ok jm && j_ok js) then bad_case
-      else
-        let sub := match res_of_ids om, res_of_ids os with
-                   | Some (Ok a), Some (Ok b) => subset_s a b
-                   | Some (Ok _), Some Err => false
-                   | _, _ => true
-                   end in
-        combine_verdict [jm; js] sub (VL [j_model jm; j_model js])
-  | [_; _; _; _; _], VS _ => if is_ood obs then mkv true true "-" VNil else bad_case
+      let sub := match res_of_ids om, res_of_ids os with
+                 | Some (Ok a), Some (Ok b) => subset_s a b
+                 | Some (Ok _), Some Err => false
+                 | _, _ => true
+                 end in
+      combine_verdict [jm; js] sub (VL [j_model jm; j_model js])
   | _, _ => bad_case
   end.
 
-(* equal arguments give equal results (the function has no memory): the same error flag, and in skip mode the same IDs.
-   In measured mode the IDs are not compared between two calls: each result is already pinned down by its own checks except for voxels
-   whose distance equals the radius within float noise (the implementation reuses one closest.Measure across the candidates, which come
-   in map order, so such a voxel may be kept by one call and dropped by the next; seen with radius 4e-11 m) *)
-Definition is_skip_call (c : val) : bool := match c with VL [_; _; _; _; _; VB b] => b | _ => false end.
+(* equal arguments give equal results (the function has no memory): the same error flag and the same IDs, in both modes *)
 Definition same_outcome (a b : val) : bool :=
   match res_of_ids a, res_of_ids b with
   | Some (Ok x), Some (Ok y) => same_ids x y
@@ -217,18 +283,10 @@ Definition same_outcome (a b : val) : bool :=
   | None, None => is_ood a && is_ood b
   | _, _ => false
   end.
-Definition same_flag (a b : val) : bool :=
-  match res_of_ids a, res_of_ids b with
-  | Some (Ok _), Some (Ok _) => true
-  | Some Err, Some Err => true
-  | None, None => is_ood a && is_ood b
-  | _, _ => false
-  end.
-Definition same_outcome_call (c : val) (a b : val) : bool := if is_skip_call c then same_outcome a b else same_flag a b.
-Fixpoint deterministic {A} (same : val -> A -> A -> bool) (l : list (val * A)) : bool :=
+Fixpoint deterministic {A} (same : A -> A -> bool) (l : list (val * A)) : bool :=
   match l with
   | [] => true
-  | (a, r) :: t => forallb (fun q => if val_eqb a (fst q) then same a r (snd q) else true) t && deterministic same t
+  | (a, r) :: t => forallb (fun q => if val_eqb a (fst q) then same r (snd q) else true) t && deterministic same t
   end.
 
 Definition d_sequence (oracle : oracle_t) (args : list val) (obs : val) : verdict :=
@@ -239,36 +297,68 @@ Definition d_sequence (oracle : oracle_t) (args : list val) (obs : val) : verdic
         let js := map (fun cr => match fst cr with
                                  | VL [p1; p2; VZ h; VZ v; VF r; VB skip] => judge oracle p1 p2 h v r skip (snd cr)
                                  | _ => jbad end) (combine calls results) in
-        if negb (forallb j_ok js) then bad_case
-        else
-          let det := deterministic same_outcome_call (combine calls results) in
-          combine_verdict js det (VL (map j_model js))
+        combine_verdict js (deterministic same_outcome (combine calls results)) (VL (map j_model js))
   | _, _ => bad_case
   end.
 
-(* FitClearanceAroundExtendedSpatialID: what the structure fixes is compared exactly; otherwise: no error and non-negative layer counts *)
-Definition judge_fit (id : string) (c : float) (obs : val) : judged :=
-  if is_ood obs then jv true true VNil
+(* ---- the fit called directly. Every call is judged against the replayed loops (Corridor.fit_model, fuel 64): clearance < 0 and arity
+   checks, then the FIRST loop probes the voxel shifted by n = 1, 2, ... COLUMNS (GetShiftingSpatialID(id, n, 0, 0)) and stops at the first
+   n with not (clearance > dist), returning n - 1; then the SECOND loop does the same with the voxel shifted by n ROWS
+   (GetShiftingSpatialID(id, 0, n, 0): the y index, i.e. southwards). The distance of every probed pair is the oracle "vdist"
+   [VS id; VS probed] answered by the real shape / geodesy_go / closest_go calls (fresh Measure, as in the fit); which voxel is probed is
+   computed here (Shift model).
+   What the second count means: it is returned as `verticalLayer` and GetExtendedSpatialIdsWithinRadiusOfLine passes it to
+   GetNspatialIdsAroundVoxcels as the number of ALTITUDE layers, but it is measured along the latitude (y) axis: it does not depend on
+   the vertical zoom nor on the altitude index of the ID (the measured points carry the latitude in the height slot, so an altitude shift
+   would measure distance 0 for ever). Modelled as written; reported as a defect, not part of C14 (which speaks of the reported counts).
+   corr = the model's (H, V) / error equals the observed one;
+   prop = the observed counts are the least stops of their axes under those same oracle answers (Corridor.least_stop, the loop's
+          specification: C14_fit_loop_meets_spec), error exactly when the structure says so. ---- *)
+Definition fit_fuel : nat := 64.
+Definition vdist_of (oracle : oracle_t) (id probed : string) : float :=
+  match oracle "vdist" [VS id; VS probed] with VF x => x | _ => nan end.
+(* is the refusal of a fit call justified?  estimates: [clearance in widths of the voxel's shorter east-west edge] *)
+Definition fit_cap_exceeded (oracle : oracle_t) (id : string) (c : float) : bool :=
+  match parse_eid id with
+  | None => false
+  | Some i =>
+      if negb (check_zoom (eh i) && check_zoom (ev i))
+      then (ex i <? 0)%Z || (ey i <? 0)%Z || (2 ^ 20 <=? ex i)%Z || (2 ^ 20 <=? ey i)%Z
+      else if (ex i <? 0)%Z || (ey i <? 0)%Z || (2 ^ eh i <=? ex i)%Z || (2 ^ eh i <=? ey i)%Z then true
+      else
+        (0 <? c)%float &&
+        ((c =? infinity)%float || (eh i <? 2)%Z ||
+         match oracle "fitdom" [VS id; VF c] with
+         | VL [VF rcells] => if (eh i <? 6)%Z then (0.5 <? rcells)%float else (3 <? rcells)%float
+         | _ => false
+         end)
+  end.
+Definition judge_fit (oracle : oracle_t) (id : string) (c : float) (obs : val) : judged :=
+  if is_ood obs then (if fit_cap_exceeded oracle id c then jskip else jbad)
   else
     match res_of_fit obs with
     | None => jbad
     | Some o =>
-        match fit_struct id c with
+        let dx := fun id n => vdist_of oracle id (shift_api id n 0 0) in
+        let dy := fun id n => vdist_of oracle id (shift_api id 0 n 0) in
+        match fit_model fit_fuel dx dy id c with
+        | None => jv false true (VS "fuel")
         | Some m =>
             let same := match m, o with
                         | Err, Err => true
                         | Ok (a, b), Ok (a', b') => (a =? a')%Z && (b =? b')%Z
                         | _, _ => false
                         end in
-            jv same same (fit_val m)
-        | None =>
-            let ok := match o with Ok (H, V) => (0 <=? H)%Z && (0 <=? V)%Z | Err => false end in
-            jv ok ok (VS "geometry")
+            let prop := match o with
+                        | Err => negb (is_ok m)
+                        | Ok (H, V) => is_ok m && least_stop c (dx id) H && least_stop c (dy id) V
+                        end in
+            jv same prop (fit_val m)
         end
     end.
-Definition d_fit (_ : oracle_t) (args : list val) (obs : val) : verdict :=
+Definition d_fit (oracle : oracle_t) (args : list val) (obs : val) : verdict :=
   match args with
-  | [VS id; VF c] => verdict_of (judge_fit id c obs)
+  | [VS id; VF c] => verdict_of (judge_fit oracle id c obs)
   | _ => bad_case
   end.
 Definition same_fit (a b : val) : bool :=
@@ -278,62 +368,16 @@ Definition same_fit (a b : val) : bool :=
   | None, None => is_ood a && is_ood b
   | _, _ => false
   end.
-Definition d_fit_sequence (_ : oracle_t) (args : list val) (obs : val) : verdict :=
+Definition d_fit_sequence (oracle : oracle_t) (args : list val) (obs : val) : verdict :=
   match args, obs with
   | [VL calls], VL results =>
       if negb (Nat.eqb (List.length calls) (List.length results)) then bad_case
       else
         let js := map (fun cr => match fst cr with
-                                 | VL [VS id; VF c] => judge_fit id c (snd cr)
+                                 | VL [VS id; VF c] => judge_fit oracle id c (snd cr)
                                  | _ => jbad end) (combine calls results) in
-        if negb (forallb j_ok js) then bad_case
-        else
-          let det := deterministic (fun _ => same_fit) (combine calls results) in
-          combine_verdict js det (VL (map j_model js))
+        combine_verdict js (deterministic same_fit (combine calls results)) (VL (map j_model js))
   | _, _ => bad_case
-  end.
-
-(* FitLoop: the growth loops of FitClearanceAroundExtendedSpatialID replayed step by step (Corridor.fit_model, fuel 64): clearance < 0 and
-   arity checks, then the FIRST loop probes the voxel shifted by n = 1, 2, ... COLUMNS (GetShiftingSpatialID(id, n, 0, 0)) and stops at
-   the first n with not (clearance > dist), returning n - 1; then the SECOND loop does the same with the voxel shifted by n ROWS
-   (GetShiftingSpatialID(id, 0, n, 0): the y index, i.e. southwards). The distance of every probed pair is the oracle "vdist"
-   [VS id; VS probed] answered by the real shape / geodesy_go / closest_go calls; which voxel is probed is computed here (Shift model).
-   What the second count means: it is returned as `verticalLayer` and GetExtendedSpatialIdsWithinRadiusOfLine passes it to
-   GetNspatialIdsAroundVoxcels as the number of ALTITUDE layers, but it is measured along the latitude (y) axis: it does not depend on
-   the vertical zoom nor on the altitude index of the ID (the measured points carry the latitude in the height slot, so an altitude shift
-   would measure distance 0 for ever). Modelled as written; reported as a defect, not part of C14 (which speaks of the reported counts).
-   corr = the model's (H, V) / error equals the observed one;
-   prop = the observed counts are the least stops of their axes under those same oracle answers (Corridor.least_stop, the loop's
-          specification: C14_fit_loop_meets_spec), error exactly when the structure says so. *)
-Definition fit_fuel : nat := 64.
-Definition vdist_of (oracle : oracle_t) (id probed : string) : float :=
-  match oracle "vdist" [VS id; VS probed] with VF x => x | _ => nan end.
-Definition d_fitloop (oracle : oracle_t) (args : list val) (obs : val) : verdict :=
-  match args with
-  | [VS id; VF c] =>
-      if is_ood obs then mkv true true "-" VNil
-      else
-        match res_of_fit obs with
-        | None => bad_case
-        | Some o =>
-            let dx := fun id n => vdist_of oracle id (shift_api id n 0 0) in
-            let dy := fun id n => vdist_of oracle id (shift_api id 0 n 0) in
-            match fit_model fit_fuel dx dy id c with
-            | None => mkv false true "-" (VS "fuel")
-            | Some m =>
-                let same := match m, o with
-                            | Err, Err => true
-                            | Ok (a, b), Ok (a', b') => (a =? a')%Z && (b =? b')%Z
-                            | _, _ => false
-                            end in
-                let prop := match o with
-                            | Err => negb (is_ok m)
-                            | Ok (H, V) => is_ok m && least_stop c (dx id) H && least_stop c (dy id) V
-                            end in
-                mkv same prop "-" (fit_val m)
-            end
-        end
-  | _ => bad_case
   end.
 
 Definition table_C14 : table :=
@@ -342,4 +386,4 @@ Definition table_C14 : table :=
    ("CorridorSequence", d_sequence);
    ("FitClearanceAroundExtendedSpatialID", d_fit);
    ("FitSequence", d_fit_sequence);
-   ("FitLoop", d_fitloop)].
+   ("FitLoop", d_fit)].
